@@ -160,6 +160,16 @@ def make_jobs(ctx, focus: str):
             t = {"vars": [("multiobj", ([-4.0, -4.0], [4.0, 4.0]))], "obj": "multi2", "minmax": r.choice(["min", "max"]),
                  "weights": r.choice([[2.0, 1.0], [0.25, 0.25], [3.0, 0.5], [0.4, 0.6]]), "seed": r.randint(0, 10**6)}
             jobs.append({"opt": nm, "cfg": {"max_cycles": 2, "fitness_error": None}, "task": t, "record": True})
+        # a task object that was used before and whose variables were then narrowed (task.variables = ...): positions and objective arguments must lie in the NEW space
+        if r.random() < (0.25 if ctx.quick else 1.0):
+            jobs.append({"opt": nm, "cfg": {"max_cycles": 2, "fitness_error": None}, "record": True,
+                         "task": {"vars": [("contmulti", ([-8.0, -8.0, -8.0], [8.0, 8.0, 8.0]))], "obj": "sphere", "minmax": r.choice(["min", "max"]), "seed": r.randint(0, 10**6)},
+                         "retask_vars": [("contmulti", ([-1.0, 2.0, -1.0], [1.0, 3.0, 0.0]))]})
+        # two variables sharing one name (the library's default name is "var"): still one coordinate per declared variable
+        if r.random() < (0.25 if ctx.quick else 1.0):
+            jobs.append({"opt": nm, "cfg": {"max_cycles": 2, "fitness_error": None}, "record": True,
+                         "task": {"vars": [("cont", (-2.0, 2.0)), ("cont", (5.0, 6.0)), ("contmulti", ([0.0, 0.0], [1.0, 1.0]))], "names": ["var", "var", "x"],
+                                  "obj": "sphere", "minmax": "min", "seed": r.randint(0, 10**6)}})
         # an integer-coded task (mixed or permutation) where the optimizer supports it
         if focus in ("space", "calls") or not ctx.quick:
             vs = r.choice([[("disc", 4), ("binary", 3), ("cont", (-2.0, 2.0))], [("perm", 6)], [("discmulti", [3, 5, 2])]])
@@ -180,7 +190,7 @@ def decide(ctx, obs_list, what: set[str]):
             # calls made before the crash still count for C05
         else:
             stats["completed"] += 1
-        vspecs = t["vars"]
+        vspecs = j.get("retask_vars") or t["vars"]
         mm = t.get("minmax", "min")
         weights = t.get("weights")
         if o["ok"] and what & {"space", "cost"}:
